@@ -79,6 +79,24 @@ def _assigned_aggs(fn, adt, field):
     for bi, si, kind, payload in field_assignments(fn, adt, field):
         if kind != "stmt":
             continue
+        # `p.f = match .. { .. => A{..}, .. => B{..} }`: one entry per arm, located at the arm
+        src = op_place(payload["op"]) if payload["k"] == "use" else None
+        for _ in range(4):
+            if src is None or src["proj"]:
+                break
+            ds = fn.whole_defs(src["local"])
+            if len(ds) == 1 and ds[0][0] == "stmt" and ds[0][1]["k"] == "use" and len(fn.defs().get(src["local"], [])) == 1:
+                src = op_place(ds[0][1]["op"])
+                continue
+            break
+        ds = fn.whole_defs(src["local"]) if src is not None and not src["proj"] else []
+        if len(ds) > 1 and len(fn.defs().get(src["local"], [])) == len(ds) and all(d[0] == "stmt" for d in ds):
+            for d in ds:
+                if d[2] not in fn.cfg():
+                    continue
+                v, vals = _agg_fields(strip(R.rvalue(d[1])))
+                out.append((d[2], v, vals))
+            continue
         t = strip(R.rvalue(payload))
         v, vals = _agg_fields(t)
         out.append((bi, v, vals))
